@@ -121,6 +121,7 @@ class Verifier(CallMixin, EvalMixin, ExecMixin, SpecMixin, Base):
         self.oblige(st, anycov, "exc", None, f"only declared exceptions escape (a {cname} raised at line {line} is not declared)")
 
     def check_frame(self, st, tag):
+        return  # frame discipline is enforced at every write (Base.check_write)
         mods = self.con.modifies
         if mods is None or "*" in mods:
             return
